@@ -213,7 +213,9 @@ LongInputs ==
       j \in 1..Len(LongSpecs), fam \in 1..(IF Tier = "quick" THEN 1 ELSE 3) }
 ExtInputs == TriInputs \cup SessInputs \cup LongInputs
 
-Inputs == IF Part = "fam" THEN FamInputs ELSE IF Part = "exh" THEN ExhInputs ELSE ExtInputs
+Inputs == IF Part = "fam" THEN FamInputs ELSE IF Part = "exh" THEN ExhInputs
+          ELSE IF Part = "tri" THEN TriInputs ELSE IF Part = "sess" THEN SessInputs
+          ELSE IF Part = "long" THEN LongInputs ELSE ExtInputs
 
 \* ---- call histories ----
 Tsq == IF variant = "log" THEN aux.tslog ELSE c.ts
